@@ -110,7 +110,8 @@ def collect_information(exprs):  # noqa: C901
                 continue
             sort = cmd[1]
             for constr in cmd[2]:
-                if len(constr) == 0:
+                if len(constr) == 0 or not constr[0].is_leaf():
+                    # (the name of a constructor is a symbol)
                     logging.trace(f'Ignored constructor in "{cmd}"')
                     continue
                 __datatypes_constructors[constr[0]] = sort
@@ -146,7 +147,7 @@ def collect_information(exprs):  # noqa: C901
                     logging.trace(f'Ignore "{cmd[2][id]}" as it is a leaf')
                     continue
                 for constr in cmd[2][id]:
-                    if len(constr) == 0:
+                    if len(constr) == 0 or not constr[0].is_leaf():
                         logging.trace(f'Ignored constructor in "{cmd}"')
                         continue
                     __datatypes_constructors[constr[0]] = sorts[id]
